@@ -134,7 +134,9 @@ def build_direct(spec):
             d = ('TSTEP', 'ROW', 'COL')
         else:
             d = ('TSTEP', 'LAY', 'ROW', 'COL')
-        v = f.createVariable(k, 'f', d)
+        # a share of the hand-built files holds double-precision variables
+        # (what a computation leaves behind); the values are the same
+        v = f.createVariable(k, 'd' if spec['seed'] % 4 == 1 else 'f', d)
         v.units = 'ppm'
         v[...] = a
     setattr(f, 'VAR-LIST', ''.join(k.ljust(16) for k in c['vars']))
